@@ -316,6 +316,11 @@ def run(m, rep, tier):
             for o in c.o[:3]:
                 oi = f.get(strip_bitcasts(f, o)) if isinstance(o, str) else None
                 kinds.append(vec_field(resolve_addr(f, oi.o[0])) if (oi is not None and oi.op == 'load') else None)
+            base_i = f.get(strip_bitcasts(f, c.o[0])) if isinstance(c.o[0], str) else None
+            if base_i is not None and base_i.op == 'call' and base_i.callee in ('cstl_vector_at', 'cstl_vector_at_const'):
+                v12.violation(site, 'the storage address is obtained through %s(), which aborts for an index that is not below the size: the routine can no '
+                              'longer be used on an empty vector (it has to answer -1 / do nothing there)' % base_i.callee, c.loc(), {})
+                continue
             if kinds == ['elem.base', 'count', 'elem.size']:
                 v12.ok(site, 'base, count, element size', c.loc())
             elif kinds[1] == 'cap':
@@ -341,6 +346,27 @@ def run(m, rep, tier):
     from .util import check_assert_effects
     _ae = rep.rule('V14', 'every store / effectful call made with assertions enabled is also made by the NDEBUG build (no work inside assert())', floor=1)
     check_assert_effects(m, _ae, ('vector.c', 'vector.h'))
+
+    # ---- V15: clear keeps the element description ------------------------------------------------------------
+    v15 = rep.rule('V15', 'cstl_vector_clear leaves the element size and the constructor / destructor description as they were', floor=1)
+    f15 = m.ifn('cstl_vector_clear')
+    if f15 is None:
+        v15.undecided('cstl_vector_clear', 'not in the inlined model')
+    else:
+        bad15 = []
+        for s2 in f15.all_insts():
+            if s2.op != 'store' or resolve_addr(f15, s2.o[1]).root != '$0':
+                continue
+            fl = vec_field(resolve_addr(f15, s2.o[1]))
+            if fl in ('elem.size', 'elem.xtor.cons', 'elem.xtor.dest', 'elem.xtor.priv'):
+                v = f15.get(strip_bitcasts(f15, s2.o[0])) if isinstance(s2.o[0], str) else None
+                if not (v is not None and v.op == 'load' and resolve_addr(f15, v.o[0]).root == '$0' and vec_field(resolve_addr(f15, v.o[0])) == fl):
+                    bad15.append('%s is overwritten at %s with something other than its own value: a vector reused after clear no longer constructs / '
+                                 'destroys its elements as it was set up to' % (fl, s2.loc()))
+        if bad15:
+            v15.violation('cstl_vector_clear', '; '.join(sorted(set(bad15))[:2]), floc(m, f15), {})
+        else:
+            v15.ok('cstl_vector_clear', 'element size and xtor description untouched (or rewritten with their own values)', floc(m, f15))
 
 
 def _v2_eval(m, mod):
